@@ -2,6 +2,7 @@
    shipped constructors, so a theorem "forall t" covers every nesting at once.
    Definitions only. *)
 From HV Require Export Lattice.Model.
+From HV Require Import Lattice.Tomb Lattice.UF.
 
 Inductive sc := SBool | SU8 | SUnb.
 Definition sc_top (s : sc) : option N :=
@@ -16,7 +17,10 @@ Inductive lty :=
 | TConflict
 | TPair (a b : lty)          (* Pair and every #[derive(Lattice)] struct (field-wise) *)
 | TDom (k v : lty)
-| TVec (v : lty).
+| TVec (v : lty)
+| TSetTomb                    (* SetUnionWithTombstones (Lattice/Tomb.v) *)
+| TMapTomb (v : lty)          (* MapUnionWithTombstones *)
+| TUF.                        (* UnionFind (Lattice/UF.v) *)
 
 Fixpoint val (t : lty) : Type :=
   match t with
@@ -28,6 +32,9 @@ Fixpoint val (t : lty) : Type :=
   | TConflict => option N
   | TPair a b | TDom a b => (val a * val b)%type
   | TVec v => list (val v)
+  | TSetTomb => tstate
+  | TMapTomb v => mstate (val v)
+  | TUF => uf
   end.
 
 Fixpoint ops (t : lty) : LatOps (val t) :=
@@ -43,6 +50,9 @@ Fixpoint ops (t : lty) : LatOps (val t) :=
   | TPair a b => pair_ops (ops a) (ops b)
   | TDom a b => dom_ops (ops a) (ops b)
   | TVec v => vec_ops (ops v)
+  | TSetTomb => settomb_ops
+  | TMapTomb v => maptomb_ops (ops v)
+  | TUF => uf_ops
   end.
 
 (* DomPair's side condition in C01: the key lattice is totally ordered.  Scalars and
@@ -56,7 +66,7 @@ Fixpoint total_ty (t : lty) : bool :=
 
 Fixpoint key_total (t : lty) : bool :=
   match t with
-  | TMap v | TBot v | TTop v | TVec v => key_total v
+  | TMap v | TBot v | TTop v | TVec v | TMapTomb v => key_total v
   | TPair a b => key_total a && key_total b
   | TDom k v => total_ty k && key_total k && key_total v
   | _ => true
@@ -68,7 +78,7 @@ Fixpoint has_top (t : lty) : bool :=
   | TUnit => true
   | TMax s => match sc_top s with Some _ => true | None => false end
   | TMin _ => true
-  | TSet | TMap _ | TVec _ => false
+  | TSet | TMap _ | TVec _ | TSetTomb | TMapTomb _ | TUF => false
   | TBot v => has_top v
   | TTop _ => true
   | TConflict => true
@@ -77,7 +87,7 @@ Fixpoint has_top (t : lty) : bool :=
 
 Fixpoint top_sound (t : lty) : bool :=
   match t with
-  | TMap v | TBot v | TVec v => top_sound v
+  | TMap v | TBot v | TVec v | TMapTomb v => top_sound v
   | TTop v => top_sound v
   | TPair a b | TDom a b => top_sound a && top_sound b
   | _ => true
@@ -115,6 +125,16 @@ Fixpoint same (t : lty) : val t -> val t -> bool :=
          | vx :: rx, vy :: ry => same v vx vy && go rx ry
          | _, _ => true
          end) a b
+  | TSetTomb => fun a b => seteqb (fst a) (fst b) && seteqb (snd a) (snd b)
+  | TMapTomb v => fun a b =>
+      Nat.eqb (length (fst a)) (length (fst b)) &&
+      forallb (fun kv => match get (fst kv) (fst b) with
+                         | Some vb => same v (snd kv) vb
+                         | None => false end) (fst a) &&
+      seteqb (snd a) (snd b)
+  (* the parent map itself depends on hash iteration order and on path compression: compare
+     the partitions (the lattice's own equality) *)
+  | TUF => fun a b => eqb uf_ops a b
   end.
 
 (* ------------------------------------------------------------------------------------
